@@ -1,7 +1,7 @@
 (* Michelson/Tickets.v — model of the ticket instructions of pytezos
    (src/pytezos/michelson/instructions/ticket.py, types/ticket.py, is_duplicable in types/base.py)
    together with the stack / pair / option / list instructions a program needs to move tickets
-   around (instructions/stack.py, adt.py, struct.py, control.py IF_NONE / IF_CONS / ITER).
+   around (instructions/stack.py, adt.py, struct.py, control.py IF_NONE / IF_CONS / ITER / MAP over lists).
 
    Domain: ticket contents are nat or string values (the comparable types the harness generates);
    TICKET on any other content is outside the model (Reject).  The state carries a ghost ledger
@@ -34,7 +34,7 @@ Inductive instr :=
 | DUP | DUPN (n : nat) | SWAP | DROP | DIG (n : nat) | DUG (n : nat)
 | PAIR | UNPAIR | CAR | CDR
 | SOME | NONE (t : ty) | IF_NONE (bt bf : list instr)
-| NIL (t : ty) | CONS | IF_CONS (bt bf : list instr) | ITER (body : list instr)
+| NIL (t : ty) | CONS | IF_CONS (bt bf : list instr) | ITER (body : list instr) | MAP (body : list instr)
 | PUSH_NAT (z : Z) | PUSH_STR (s : bytes)
 | SELF_IS (a : bytes).       (* harness pseudo-instruction: context.address := a *)
 
@@ -132,6 +132,31 @@ Definition iter_with (stp : instr -> state -> result state) (body : list instr) 
     | x :: r => match run_with stp body (with_stk st (x :: stk st)) with Ok st' => go r st' | Reject => Reject end
     end.
 
+(* MAP over a list: for elt in src: push(elt); body.execute(...); new_elt = pop1(); items.append(new_elt) *)
+Definition map_with (stp : instr -> state -> result state) (body : list instr)
+  : list val -> state -> list val -> result (state * list val) :=
+  fix go (l : list val) (st : state) (acc : list val) : result (state * list val) :=
+    match l with
+    | [] => Ok (st, acc)
+    | x :: r =>
+        match run_with stp body (with_stk st (x :: stk st)) with
+        | Ok st' =>
+            match stk st' with
+            | y :: s' => go r (with_stk st' s') (acc ++ [y])
+            | [] => Reject
+            end
+        | Reject => Reject
+        end
+    end.
+
+(* ListType.from_items: the type of the first item, all others must have it; an empty result
+   keeps the source list ("res = src") *)
+Definition list_from_items (src_ty : ty) (items : list val) : result val :=
+  match items with
+  | [] => Ok (VList src_ty [])
+  | x :: r => if forallb (fun y => ty_eqb (type_of x) (type_of y)) r then Ok (VList (type_of x) items) else Reject
+  end.
+
 (* stack.protect(n); pop1; restore(n); push  — and the converse for DUG *)
 Fixpoint dig (n : nat) (s : list val) : option (val * list val) :=
   match n, s with
@@ -205,6 +230,15 @@ Fixpoint step (i : instr) (st : state) {struct i} : result state :=
   | ITER body, VList _ l :: s => iter_with step body l (with_stk st s)
   (* IterInstruction has no type assertion and PairType is iterable (its two items): mirrored *)
   | ITER body, VPair a b :: s => iter_with step body [a; b] (with_stk st s)
+  | MAP body, VList t l :: s =>
+      match map_with step body l (with_stk st s) [] with
+      | Ok (st', items) =>
+          match list_from_items t items with
+          | Ok v => Ok (with_stk st' (v :: stk st'))
+          | Reject => Reject
+          end
+      | Reject => Reject
+      end
   | PUSH_NAT z, s => if z <? 0 then Reject else Ok (with_stk st (VNat z :: s))
   | PUSH_STR x, s => Ok (with_stk st (VStr x :: s))
   | SELF_IS a, s => Ok {| self := a; stk := s; minted := minted st |}
@@ -254,7 +288,7 @@ Fixpoint has_ticket_instr (i : instr) : bool :=
   | IF_NONE a b | IF_CONS a b =>
       (fix go (l : list instr) : bool := match l with [] => false | x :: r => has_ticket_instr x || go r end) a ||
       (fix go (l : list instr) : bool := match l with [] => false | x :: r => has_ticket_instr x || go r end) b
-  | ITER a =>
+  | ITER a | MAP a =>
       (fix go (l : list instr) : bool := match l with [] => false | x :: r => has_ticket_instr x || go r end) a
   | _ => false
   end.
